@@ -22,8 +22,8 @@ CHECKS = {
     "C01": dict(
         text="Lean theorems over the deep-embedded modelling language (every program incl. Vmap/Scan/Cond, every argument list, "
              "arbitrary primitive densities/samplers, weights in any additive commutative group): every trace simulate builds is structurally "
-             "coherent; a coherent trace reports score = -assess(its choices) and the same return value (proved for Cond-free programs; "
-             "Cond by correspondence). Tie: random typed programs executed on the real genjax (seed(simulate), assess) and on the compiled "
+             "coherent; a coherent trace reports score = -assess(its choices) and the same return value - every program, Cond at any depth "
+             "(hypothesis: get_choices() does not raise, characterised exactly by the program's static skeleton). Tie: random typed programs executed on the real genjax (seed(simulate), assess) and on the compiled "
              "Lean model with exact-rational probe distributions, plus an independent reference semantics.",
         note=TB + "C01: the sampling half (choices distributed by that density) rests on the sampler contract of the primitives (C13/C07); "
              "probe samplers are deterministic functions of their parameters so the model can predict every draw.",
@@ -31,14 +31,15 @@ CHECKS = {
         design="§3 C01"),
     "C02": dict(
         text="Lean theorems: generate returns a coherent trace for every constraint map; weight 0 without constraints; weight = minus the scores "
-             "of exactly the constrained leaves (GF.cw) for every program; score = -assess(choices) (Cond-free). Tie: generate on the real code for "
+             "of exactly the constrained leaves (GF.cw) for every program; score = -assess(choices) for every program incl. Cond. Tie: generate on the real code for "
              "all/none/partial constraint subsets of generated programs vs the Lean model and the reference semantics.",
         note=TB + "C02: E[exp w] = marginal is not formalised (follows from the weight identity plus the sampler contract).",
         technique="Lean 4 proof + differential correspondence over constraint subsets",
         design="§3 C02"),
     "C03": dict(
         text="Lean theorems: update returns a coherent trace under the new args; weight = score(old) - score(new) for every program incl. Cond branch "
-             "switches (repaired code = spec variant) and for the pre-repair variant when no Cond switches; in assess terms for Cond-free programs. "
+             "switches (repaired code = spec variant) and for the pre-repair variant when no Cond switches; in assess terms (w = log p(new) - log p(old)) "
+             "for every program incl. Cond switches. "
              "Tie: update sequences with arg changes / constraint subsets / discard round trip on the real code vs model and reference.",
         note=TB + "C03: 'keeps unconstrained values' and the discard round trip are checked by the monitors on the implementation, not proved.",
         technique="Lean 4 proof + differential correspondence incl. round trips",
@@ -53,7 +54,7 @@ CHECKS = {
         design="§3 C04"),
     "C05": dict(
         text="Lean theorems: coherence is preserved by any finite history of update/regenerate steps (induction over the op list) and by the "
-             "kernels' accept/reject select; update weights telescope. Tie: random op histories on the real code, every intermediate trace "
+             "kernels' accept/reject select; update weights telescope; after any history score = -assess(choices; recorded args) for every program incl. Cond. Tie: random op histories on the real code, every intermediate trace "
              "compared with the Lean model and re-assessed by the reference semantics.",
         note=TB + "C05: kernels (mh/mala/hmc), lane indexing and jit round trips are covered by the correspondence run on a real-distribution model.",
         technique="Lean 4 proof (invariant by induction over histories) + differential correspondence on op sequences",
@@ -61,9 +62,10 @@ CHECKS = {
     "C12": dict(
         text="Lean theorems over any linearly ordered floor field, all weight vectors (non-negative, positive sum), all N, all offsets u in (0,1): "
              "ancestor indices valid, copies sum to N, floor/ceil bound, closed-form copy count, estimate invariance of resample, faithful copy, "
-             "diagnostic weights. Tie: seed(resample) on rational weight vectors, offset recovered from the key, indices vs the Lean model; "
+             "diagnostic weights; over the reals: the copy count is integrable in the offset and its integral over u in [0,1] is N*w_i (systematic "
+             "resampling unbiased); categorical/multinomial resampling: normalised law over ancestor vectors and E[copies_i] = N*w_i (any field). Tie: seed(resample) on rational weight vectors, offset recovered from the key, indices vs the Lean model; "
              "copy-consistency of every trace leaf; calibrated expectation test for both methods.",
-        note=TB + "C12: E[copies]=N w_i is proved up to the closed form in u (integration step cited); categorical draws are TFP's (trusted), checked statistically at z=5.5.",
+        note=TB + "C12: the categorical theorem is about the finite-distribution model of categorical.sample; the draws themselves are TFP's (trusted), checked statistically at z=5.5.",
         technique="Lean 4 + Mathlib proof + differential correspondence with recovered randomness",
         design="§3 C12"),
     "C18": dict(
@@ -78,7 +80,10 @@ CHECKS = {
     "C19": dict(
         text="Lean theorems about the State-interpreter model (every store, path, iteration/lane context, lane count, scan length>=1): later write wins "
              "and is local, a named save lands under its enclosing namespaces, vmapped saves are batched per lane, scan-body saves are stacked along "
-             "the iteration axis under the enclosing namespaces; proved counterexample for the pre-repair root merge. Tie: generated placements "
+             "the iteration axis under the enclosing namespaces; REFINEMENT for every program (any nesting of scans, vmaps, namespaces, overwrites, leaf "
+             "saves): the collected store equals the later-write-wins replay of the program's save events (same failures, entries, order), nothing else is "
+             "collected, the last save at a path is what is collected; the pre-repair code refines the same spec exactly on programs without a namespace "
+             "open around a scan / name clashes with scan bodies (up to entry order); proved counterexamples for the pre-repair root merge. Tie: generated placements "
              "(namespaces, nested scans, vmap/modular_vmap, overwrites, leaf mode) run eagerly, under jit and under seed: result vs unwrapped function, "
              "collected dict vs an independent reference and vs the compiled Lean model.",
         note=TB + "C19: transparency of the wrapper and the batching of tag/namespace primitives under jax.vmap are runtime behaviour, checked by the correspondence only; save inside cond branches is outside the claim.",
@@ -177,13 +182,18 @@ CHECKS = {
         technique="Lean 4 proof (combinator corollaries + layout model) + differential correspondence against per-slice evaluation",
         design="§3 C08"),
     "C13": dict(
-        text="Partial. Lean + Mathlib theorems: the documented parameterisations of flip, bernoulli(logits), categorical(logits), geometric (failures), "
-             "poisson, binomial, exponential(rate), uniform, normal normalise to 1 for every parameter value (10 of 24). Tie: for all 24 exported "
-             "distributions logpdf on parameter x support grids vs closed forms of the documented parameterisation / scipy, numeric normalisation, "
-             "seeded draws (scalar, sample_shape, vectorised) vs reference CDF/PMF (KS / chi-square, alpha=1e-6), shapes and dtypes, extreme logit "
-             "spreads, user-wrapped tfp_distribution / distribution.",
-        note=TB + "C13 (partial): sampler<->density agreement is statistical evidence; 14 distributions have no formal normalisation theorem; TFP's log_prob and samplers are trusted.",
-        technique="Lean 4 + Mathlib proof (normalisation of the spec densities) + differential/statistical correspondence for all 24 distributions",
+        text="Lean + Mathlib theorems: for ALL 24 exported distributions the documented closed-form density / mass function (parameters in "
+             "documented order: flip takes a probability, bernoulli and categorical logits, geometric counts failures, exponential and gamma a rate, "
+             "laplace / weibull / inverse_gamma a scale, negative_binomial counts successes before total_count failures, multivariate_normal a "
+             "covariance, ...) is non-negative and normalises to 1 over its support for every parameter value in the documented domain (any "
+             "dimension for categorical / multinomial / dirichlet / multivariate_normal), plus parameter-pinning lemmas (gamma(a,r)(x) = r*gamma(a,1)(r x), "
+             "chi2(k) = gamma(k/2,1/2), half_normal = 2*normal on x>=0, log_normal via log, student_t(1) = cauchy, mvn(diag sigma^2) = product of normals, ...). "
+             "Tie: for all 24 distributions logpdf on parameter x support grids vs closed forms of the documented parameterisation / scipy, numeric "
+             "normalisation, seeded draws (scalar, sample_shape, vectorised) vs reference CDF/PMF (KS / chi-square, alpha=1e-6), shapes and dtypes, "
+             "extreme logit spreads, user-wrapped tfp_distribution / distribution.",
+        note=TB + "C13 (partial): that dist.logpdf equals the Lean closed form is established numerically by the correspondence run (float64 reference "
+             "formulas), and sampler<->density agreement is statistical evidence; TFP's log_prob and samplers are trusted.",
+        technique="Lean 4 + Mathlib proof (normalisation of the spec densities, all 24) + differential/statistical correspondence for all 24 distributions",
         design="§3 C13"),
 }
 
